@@ -451,6 +451,9 @@ def run(repo: Repo, rep: Report, tier: str) -> None:
         if m is None:
             continue
         n_plug += 1
+        from sa.flatten import flatten as _fl176
+
+        m = _fl176(m)  # shared helpers (`merge_into_request_headers`, possibly imported from the base module) are written out
         _plugin_rules(cls, m, rep)
         _credential_from_state(cls, m, rep)
     rep.count("R17.6:bundled_plugins", n_plug)
